@@ -6,7 +6,7 @@ CHILD_TYPES = {
     "Expr": {"ExprId", "Vec<ExprId>"},
     "RegexNode": {"RegexNodeId", "Vec<RegexNodeId>"},
 }
-OK_ADAPTORS = {"iter", "into_iter", "enumerate", "map", "collect", "iter_mut"}
+OK_ADAPTORS = {"iter", "into_iter", "enumerate", "map", "collect", "iter_mut", "for_each", "try_for_each", "copied", "cloned", "by_ref"}  # for_each visits every element; try_for_each stops only at the first error it propagates
 
 
 def enum_variants(repo, enum):
